@@ -13,8 +13,19 @@ class Clock:
         self.now = self.now + d
 
 
+_CURRENT = [None]
+
+
+def fresh(now=0):
+    """install a new clock (call at the start of every path: clock state must not leak between paths)"""
+    return install(Clock(now))
+
+
 def install(clock=None):
-    clock = clock or Clock()
+    """install `clock`; without an argument keep the clock that is already installed (or create one)"""
+    if clock is None:
+        clock = _CURRENT[0] or Clock()
+    _CURRENT[0] = clock
     import pymemcache.client.hash as H
     import pymemcache.pool as P
     H.time = clock
